@@ -5,6 +5,8 @@ mod c02;
 mod c03;
 mod c04;
 mod c05;
+mod c06;
+mod c07;
 mod c08;
 mod repairs;
 mod c09;
@@ -12,6 +14,7 @@ mod c10;
 mod c12;
 mod c13;
 mod c14;
+mod c15;
 mod c16;
 mod c17;
 mod cli;
@@ -38,6 +41,10 @@ fn main() {
     let prop = args[1].to_uppercase();
     if args[1] == "C20-WORKER" {
         std::process::exit(c20w::worker_main(&args[2..]));
+    }
+    if prop == "C07-CHILD" {
+        c07::child(&args[2]);
+        return;
     }
     if prop == "C08-WORKER" {
         c08::worker(&args[2], &args[3]);
@@ -70,6 +77,8 @@ fn main() {
         "C03" => c03::run(&ctx),
         "C04" => c04::run(&ctx),
         "C05" => c05::run(&ctx),
+        "C06" => c06::run(&ctx),
+        "C07" => c07::run(&ctx),
         "C08" => c08::run(&ctx),
         "C09" => c09::run(&ctx),
         "C10" => c10::run(&ctx),
@@ -77,6 +86,7 @@ fn main() {
         "C12" => c12::run(&ctx),
         "C13" => c13::run(&ctx),
         "C14" => c14::run(&ctx),
+        "C15" => c15::run(&ctx),
         "C16" => c16::run(&ctx),
         "C17" => c17::run(&ctx),
         "C18" => c18::run(&ctx),
